@@ -4,6 +4,7 @@ import c11lib as L
 NAME = "norinori"
 MODULE = "cspuz.puzzle.norinori"
 FUNC = "solve_norinori"
+TIER1 = ("Norinori", "solve_norinori_model")
 
 
 def call(mod, pb):
@@ -57,4 +58,16 @@ def tier2(tier, rng):
     for (h, w) in [(1, 2), (2, 2), (2, 3), (3, 3)]:
         parts = list(L.region_partitions(h, w, max_size=6))
         for blocks in L.sample(rng, parts, 40 if th else 6):
+            yield {"h": h, "w": w, "blocks": blocks}
+
+
+def tier1_problems(tier, rng):
+    """program-capture tie: every partition of the tiniest boards, random partitions of larger and non-square ones"""
+    th = tier == "thorough"
+    for (h, w) in [(1, 1), (1, 2), (2, 1), (1, 3), (2, 2), (2, 3), (3, 2)]:
+        parts = list(L.region_partitions(h, w))
+        for blocks in (parts if th else L.sample(rng, parts, 15)):
+            yield {"h": h, "w": w, "blocks": blocks}
+    for (h, w) in [(3, 3), (2, 5), (5, 2), (4, 4), (3, 6), (6, 5), (1, 7), (7, 1), (8, 8)]:
+        for blocks in _random_parts(rng, h, w, 12 if th else 3):
             yield {"h": h, "w": w, "blocks": blocks}
